@@ -46,13 +46,16 @@ def lits (s : String) : List Dir := (lit s).map Dir.lit
 def wOk (w : Option Nat) : Bool := w ≠ some 0
 def wDec (w : Option Nat) : Option Nat := w.map (· - 1)
 
+/-- `c` is a digit of the given base (16: hexadecimal digit; else decimal digit below the base) -/
+def digitOk (base : Nat) (c : UInt8) : Bool :=
+  if base = 16 then isxdigit c else (isdigit c && decide (dval c < base))
+
 /-- digits valid in `base`, while the width lasts: (digits, rest) -/
 def takeDigits (base : Nat) : Bytes → Option Nat → Bytes × Bytes
   | [], _ => ([], [])
   | c :: r, w =>
-    if wOk w && (if base = 16 then isxdigit c else (isdigit c && decide (dval c < base))) then
-      let (ds, rest) := takeDigits base r (wDec w)
-      (c :: ds, rest)
+    if wOk w && digitOk base c then
+      (c :: (takeDigits base r (wDec w)).1, (takeDigits base r (wDec w)).2)
     else ([], c :: r)
 
 def digitsVal (base : Nat) (ds : Bytes) : Nat := ds.foldl (fun v c => v * base + xval c) 0
@@ -107,20 +110,20 @@ def collectFloat : Bytes → FState → Bytes × Bytes
   | c :: r, st =>
     let expChar : UInt8 := if st.hexa then 112 else 101
     if isdigit c then
-      let (b, rest) := collectFloat r { st with gotDigit := true, lastExp := false }
-      (c :: b, rest)
+      let p := collectFloat r { st with gotDigit := true, lastExp := false }
+      (c :: p.1, p.2)
     else if !st.gotE && st.hexa && isxdigit c then
-      let (b, rest) := collectFloat r { st with gotDigit := true, lastExp := false }
-      (c :: b, rest)
+      let p := collectFloat r { st with gotDigit := true, lastExp := false }
+      (c :: p.1, p.2)
     else if st.gotE && st.lastExp && (c = 45 || c = 43) then
-      let (b, rest) := collectFloat r { st with lastExp := false }
-      (c :: b, rest)
+      let p := collectFloat r { st with lastExp := false }
+      (c :: p.1, p.2)
     else if st.gotDigit && !st.gotE && tolower c = expChar then
-      let (b, rest) := collectFloat r { st with gotE := true, gotDot := true, lastExp := true }
-      (expChar :: b, rest)
+      let p := collectFloat r { st with gotE := true, gotDot := true, lastExp := true }
+      (expChar :: p.1, p.2)
     else if c = 46 && !st.gotDot then
-      let (b, rest) := collectFloat r { st with gotDot := true, lastExp := false }
-      (c :: b, rest)
+      let p := collectFloat r { st with gotDot := true, lastExp := false }
+      (c :: p.1, p.2)
     else ([], c :: r)
 
 /-- case-insensitive match of a lower-case word -/
@@ -177,7 +180,7 @@ def scanFloat (F : FFmt) (s : Bytes) : Option (Nat × Nat) :=
 /-- characters up to (excluding) the next newline -/
 def takeNotNl : Bytes → Bytes × Bytes
   | [] => ([], [])
-  | c :: r => if c = 10 then ([], c :: r) else let (a, b) := takeNotNl r; (c :: a, b)
+  | c :: r => if c = 10 then ([], c :: r) else (c :: (takeNotNl r).1, (takeNotNl r).2)
 
 /-- interpreter; `consumed` = characters read so far; `acc` = assignments in reverse order -/
 def sscanfGo : List Dir → Bytes → Nat → List SVal → List SVal
